@@ -7,16 +7,35 @@ def l1(quick, thorough):
     return dict(L1, quick=quick, thorough=thorough)
 
 
+L2 = {"ws": "real", "bin": "simreal", "engine": "l2"}
+
+
+def l2(quick, thorough):
+    return dict(L2, quick=quick, thorough=thorough)
+
+
+def both(q1=320_000, t1=12_000_000, q2=96_000, t2=4_000_000):
+    return [l1(q1, t1), l2(q2, t2)]
+
+
 PLAN = {
-    "C01": {"level": "exploration", "parts": [l1(480_000, 16_000_000)]},
-    "C04": {"level": "exploration", "parts": [l1(480_000, 16_000_000)]},
-    "C05": {"level": "exploration", "parts": [l1(480_000, 16_000_000)]},
-    "C06": {"level": "exploration", "parts": [l1(480_000, 16_000_000)]},
-    "C07": {"level": "exploration", "parts": [l1(480_000, 16_000_000)]},
-    "C08": {"level": "exploration", "parts": [l1(480_000, 16_000_000)]},
+    "C01": {"level": "exploration", "parts": both()},
+    "C03": {"level": "exploration", "parts": [l2(160_000, 6_000_000)]},
+    "C04": {"level": "exploration", "parts": both()},
+    "C05": {"level": "exploration", "parts": both()},
+    "C06": {"level": "exploration", "parts": both()},
+    "C07": {"level": "exploration", "parts": both()},
+    "C08": {"level": "exploration", "parts": both()},
+    "C09": {"level": "exploration", "parts": [l2(160_000, 6_000_000)]},
+    "C10": {"level": "exploration", "parts": [l2(160_000, 6_000_000)]},
+    "C11": {"level": "exploration", "parts": [l2(160_000, 6_000_000)]},
+    "C12": {"level": "exploration", "parts": [l2(160_000, 6_000_000)]},
+    "C13": {"level": "exploration", "parts": [l2(160_000, 6_000_000)]},
+    "C14": {"level": "exploration", "parts": [l2(96_000, 3_000_000)]},
+    "C15": {"level": "exploration", "parts": [l2(160_000, 6_000_000)]},
     "C16": {
         "level": "exploration",
-        "parts": [l1(64 * 3456, 2000 * 3456)],
+        "parts": [l1(64 * 3456, 2000 * 3456), l2(100_000, 4_000_000)],
         "coverage_extra": lambda agg: {
             "configurations_enumerated": len(agg.get("l1", {}).get("states", [])),
             "configuration_product": 3456,
@@ -32,6 +51,10 @@ ASSUMPTIONS = [
 ]
 
 COMPONENTS = {
+    "l2": {
+        "real": ["cachelito-macros and cachelito-async-macros (proc-macros compiled from /repo, expanding the 250-function corpus)", "cachelito-macro-utils", "cachelito-core incl. InvalidationRegistry and stats_registry", "parking_lot", "dashmap", "once_cell", "std::sync::Once", "real OS threads as actors (one runs at a time)", "fastrand"],
+        "stand_in": ["clock (verif_seams::sim_std::time)", "registry map ordering (BTreeMap via verif_seams::sim_std_det)", "decorated bodies, predicates and estimator of the user type (harness world)", "async executor (the simulator polls the futures itself)"],
+    },
     "l1": {
         "real": ["cachelito-core (GlobalCache, ThreadLocalCache, AsyncGlobalCache, CacheEntry, utils, MemoryEstimator impls, CacheStats) compiled from /repo's working tree", "parking_lot", "dashmap", "once_cell", "fastrand"],
         "stand_in": ["clock (verif_seams::sim_std::time)", "values and sizes (harness-built)"],
